@@ -47,8 +47,8 @@ func evalFunctionCall(vm *r.VM, expr *syntax.FuncCallExpr) (r.Element, error) {
 		if err != nil {
 			return nil, err
 		}
-		// bind yield result
-		if err := vm.DeclareConstElement(ytag, resultVal); err != nil {
+		// bind yield result - a copy, as every declaration stores (see evalMemberMethodExpr)
+		if err := vm.DeclareConstElement(ytag, value.DuplicateValue(resultVal)); err != nil {
 			return nil, err
 		}
 	}
